@@ -36,6 +36,7 @@ CONSTANTS Chains,      \* e.g. {"A","B"}
           Fees,        \* relayer fee amounts (paid in the origin token)
           SendFrom,    \* set of <<chain, kind>> allowed to send (bounds the model; all pairs = unrestricted)
           WithRotate,  \* whether relayer re-registrations (Rotate) are part of the model (multiplies the state space)
+          Delay,       \* 0, or 1: a proof at a verified height is honoured only in a LATER block of the receiving chain than the one that stored it
           LimWhere,    \* pairs <<chain, token>> whose limit governance acts on in the model (bounds the model; AllLimWhere = any)
           LimitSets    \* parameter triples <<cap, max, min>> governance may try to enable as a time-based supply limit ({} = no limits)
 
@@ -118,7 +119,7 @@ Init ==
   /\ rbal = [c \in Chains |-> 0]
   /\ held = [c \in Chains |-> 0]
   /\ status = [c \in Chains |-> <<>>]
-  /\ clients = [c \in Chains |-> [d \in Others(c) |-> [latest |-> 0, cons |-> {0}]]]
+  /\ clients = [c \in Chains |-> [d \in Others(c) |-> [latest |-> 0, cons |-> {0}, proc |-> (0 :> 0)]]]      \* proc[k]: the height of c at which k was stored
   /\ marks = [c \in Chains |-> 0]
   /\ snaps = [c \in Chains |-> << [commits |-> {}, acks |-> {}] >>]
   /\ rot = [c \in Chains |-> [d \in Others(c) |-> FALSE]] /\ badrel = [c \in Chains |-> {}]
@@ -224,15 +225,17 @@ Commit(c) ==
 (* MsgUpdateClient for the header of abstract height k of d.  The relayer   *)
 (* names as trusted height the latest height if it is below k, else the     *)
 (* highest verified height below k (back-filling).                          *)
+Beyond == 999      \* the latest height of a client that governance moved to a later revision of the counterparty's chain id
 UpdateOK(c, d, k, s) ==
-  /\ s = "relayer"
+  /\ s = "relayer"                               \* (a client moved to a later revision still accepts headers of the old one that chain to a
+                                                  \*  height it verified: the chain id is taken with the header's revision - as in ibc-go)
   /\ k <= h[d]
   /\ \E t \in clients[c][d].cons : t < k
 
 UpdateEff(c, d, k, s) ==
   LET cl == clients[c][d] IN
   IF ~UpdateOK(c, d, k, s) THEN UNCHANGED stateVars
-  ELSE /\ clients' = [clients EXCEPT ![c][d] = [latest |-> Max({cl.latest, k}), cons |-> cl.cons \cup {k}]]
+  ELSE /\ clients' = [clients EXCEPT ![c][d] = [latest |-> Max({cl.latest, k}), cons |-> cl.cons \cup {k}, proc |-> IF Delay = 0 THEN cl.proc ELSE (k :> h[c]) @@ cl.proc]]
        /\ UNCHANGED <<h, seq, cseq, commits, receipts, acks, out, bind, ubal, wbal, rbal, held, status, marks, snaps, sent, rot, badrel, lim>>
 
 UpdateClient(c, d, k, s) ==
@@ -243,9 +246,17 @@ UpdateClient(c, d, k, s) ==
 (* last committed header (two ToggleClient proposals, ToggleClient wipes the client's own store in between):     *)
 (* nothing but the client changes - in particular no receipt, acknowledgement, commitment or sequence.          *)
 RetoggleEff(c, d) ==
-  /\ clients' = [clients EXCEPT ![c][d] = [latest |-> h[d], cons |-> {h[d]}]]
+  /\ clients' = [clients EXCEPT ![c][d] = [latest |-> h[d], cons |-> {h[d]}, proc |-> IF Delay = 0 THEN (0 :> 0) ELSE (h[d] :> h[c])]]      \* (without a delay the processing heights play no part: kept constant)
   /\ UNCHANGED <<h, seq, cseq, commits, receipts, acks, out, bind, ubal, wbal, rbal, held, status, marks, snaps, sent, rot, badrel, lim>>
 Retoggle(c, d) == RetoggleEff(c, d) /\ last' = [act |-> "Retoggle", res |-> "ok", chain |-> c, counter |-> d]
+
+(* Governance upgrades c's client of d to the next revision of d's chain id (the counterparty is to restart under a new id): the *)
+(* client's latest height lies in the new revision, above every height of the old one; the verified heights of the old revision   *)
+(* stay, and with them every proof that was ever valid - so nothing delivered or acknowledged before may be forgotten.            *)
+UpgradeRevEff(c, d) ==
+  /\ clients' = [clients EXCEPT ![c][d].latest = Beyond]
+  /\ UNCHANGED <<h, seq, cseq, commits, receipts, acks, out, bind, ubal, wbal, rbal, held, status, marks, snaps, sent, rot, badrel, lim>>
+UpgradeRev(c, d) == UpgradeRevEff(c, d) /\ last' = [act |-> "UpgradeRev", res |-> "ok", chain |-> c, counter |-> d]
 
 (* The user of c calls a contract of its own that emits a log with the topic and data of the packet contract's   *)
 (* PacketSent event (a transfer of a to chain d under the next sequence): not the packet contract, so nothing happens. *)
@@ -285,6 +296,7 @@ Provable(c, d, k, pf) ==
   /\ d \in Others(c)
   /\ k \in clients[c][d].cons
   /\ k <= clients[c][d].latest
+  /\ (Delay = 0 \/ h[c] > clients[c][d].proc[k])     \* the delay since that height was processed has passed
   /\ pf = "ok"
   /\ k + 1 <= Len(snaps[d])
 
@@ -404,6 +416,7 @@ Next ==
   \/ \E c \in Chains : \E d \in Others(c), nm \in {"prefix", "ext"} : NewClient(c, d, nm)
   \/ \E c \in Chains : \E d \in Others(c), a \in Amts : SendFake(c, d, a)
   \/ \E c \in Chains : Regenesis(c)
+  \/ \E c \in Chains : \E d \in Others(c) : clients[c][d].latest < Beyond /\ UpgradeRev(c, d)
   \/ \E c \in Chains : \E d \in Others(c) : WithRotate /\ Rotate(c, d)
   \/ \E c \in Chains : \E x \in LimKeys(c), t \in LimitSets : <<c, x>> \in LimWhere /\ EnableLimit(c, x, t)
   \/ \E c \in Chains : \E x \in LimKeys(c) : LimitSets # {} /\ <<c, x>> \in LimWhere /\ DisableLimit(c, x)
